@@ -11,8 +11,9 @@ git -C /repo worktree add --detach "$WT" HEAD >/dev/null 2>&1 || { echo "$ID/$VA
 cleanup() { git -C /repo worktree remove --force "$WT" >/dev/null 2>&1; rm -rf "$WT"; }
 trap cleanup EXIT
 cd "$WT"
-demo_file=$(python3 -c "import json;print(json.load(open('$SRC/meta.json'))['demo_file'])")
-demo_cmd=$(python3 -c "import json;print(json.load(open('$SRC/meta.json'))['demo_cmd'])")
+META=$SRC/meta.json; [ -f "$SRC/agent_meta.json" ] && META=$SRC/agent_meta.json
+demo_file=$(python3 -c "import json;print(json.load(open('$META'))['demo_file'])")
+demo_cmd=$(python3 -c "import json;print(json.load(open('$META'))['demo_cmd'])")
 demo_src=$(ls "$SRC"/*.go 2>/dev/null | head -1)
 if ! git apply --check "$SRC/patch.diff" 2>/dev/null; then echo "$ID/$VAR patch-does-not-apply"; exit 3; fi
 # without the patch: demo passes
